@@ -246,11 +246,25 @@ func genC17(g *Gen, tier string) *Program {
 						spec = &BucketSpec{Bits: []uint64{f64bits(0), f64bits(1), f64bits(2.5), f64bits(10)}}
 					} else {
 						spec = &BucketSpec{Dur: true, Durs: []int64{1e6, 5e8, 1e9, 2e9}}
+						if g.Bool(60) {
+							// strictly increasing bounds at ms or ns granularity, mostly above one
+							// second (where seconds-as-float64 conversions start to round)
+							spec = &BucketSpec{Dur: true}
+							d := int64(g.Range(1, 900)) * 1e6
+							for i := g.Range(2, 4); i > 0; i-- {
+								spec.Durs = append(spec.Durs, d)
+								step := int64(g.Range(1, 4000)) * 1e6
+								if g.Bool(40) {
+									step += int64(g.Intn(1000000))
+								}
+								d += step
+							}
+						}
 					}
 					if !conflict {
 						// a histogram name always goes with one bucket set
 						if spec.Dur {
-							op.Name += "_d"
+							op.Name += fmt.Sprintf("_d%d", specHash(spec))
 						} else {
 							op.Name += "_v"
 						}
@@ -275,7 +289,11 @@ func genC17(g *Gen, tier string) *Program {
 					ops = append(ops, Op{K: "rec", M: m.m, I: int64(uniq) * 1e6})
 				case "hist":
 					if m.spec.Dur {
-						ops = append(ops, Op{K: "recd", M: m.m, I: pick(g, int64(0), int64(1e6), int64(1e6+1), int64(5e8), int64(1e9), int64(3e9))})
+						v := pick(g, int64(0), int64(1e6), int64(1e6+1), int64(5e8), int64(1e9), int64(3e9))
+						if g.Bool(70) {
+							v = m.spec.Durs[g.Intn(len(m.spec.Durs))] + pick(g, int64(0), int64(0), int64(1), int64(-1))
+						}
+						ops = append(ops, Op{K: "recd", M: m.m, I: v})
 					} else {
 						ops = append(ops, Op{K: "recv", M: m.m, F: f64bits(pick(g, -1.0, 0, 0.5, 1, 2.5, 2.6, 10, 11))})
 					}
@@ -492,4 +510,14 @@ func checkC17(env *Env) []Violation {
 	}
 	_ = fmt.Sprint
 	return out
+}
+
+func specHash(b *BucketSpec) uint32 {
+	h := uint32(2166136261)
+	for _, d := range b.Durs {
+		for i := 0; i < 8; i++ {
+			h = (h ^ uint32(byte(d>>(8*i)))) * 16777619
+		}
+	}
+	return h % 100000
 }
